@@ -22,12 +22,15 @@
 (***************************************************************************)
 EXTENDS Naturals, FiniteSets, Sequences, TLC
 CONSTANT RaceTokenWait     \* TRUE: the wait for a token is raced against the permit (the code since the repair of D8)
+CONSTANT SubPermitRace     \* TRUE: a connection accepted WHILE the permit is being revoked may get a permit the revocation
+                           \* never reaches (permit 0.2.1 new_sub; the code before the repair of D14).  FALSE: the accept loop
+                           \* looks at its own permit again after creating the connection's and drops the connection.
 
 \* revoked: 0 = no, 1 = the harness is about to drop the permit, 2 = the drop has returned
 Init0(max) == [max |-> max, avail |-> max, accPc |-> "Top", accHolds |-> FALSE, pendingRet |-> 0, backlog |-> 0,
                accepted |-> {}, live |-> {}, revoked |-> 0, loopReturned |-> FALSE, stoppedSent |-> FALSE,
                stoppedSeen |-> FALSE, afterRevoke |-> <<>>, inflight |-> {}, written |-> <<>>, ended |-> {},
-               maxSeen |-> 0, mustEnd |-> {}, unanswered |-> {}, tookWhileRevoked |-> FALSE]
+               maxSeen |-> 0, mustEnd |-> {}, unanswered |-> {}, tookWhileRevoked |-> FALSE, immune |-> {}]
 Get(f, k) == IF k \in DOMAIN f THEN f[k] ELSE 0
 Inc(f, k) == IF k \in DOMAIN f THEN [f EXCEPT ![k] = @ + 1] ELSE f @@ (k :> 1)
 Ok(t) == [ok |-> TRUE, sv |-> t, why |-> <<>>]
@@ -42,7 +45,7 @@ Apply(t, e) ==
          \* a response went out: the request is answered; the loop looks at the permit next; after a 5xx the connection closes (C04)
          ELSE IF e.ev = "RespWritten" THEN Ok([t EXCEPT !.written = Inc(@, e.a), !.inflight = {p \in @ : p[1] # e.a},
                                                         !.unanswered = @ \ {e.a},
-                                                        !.mustEnd = IF t.revoked = 2 \/ e.b >= 500 THEN @ \cup {e.a} ELSE @])
+                                                        !.mustEnd = IF (t.revoked = 2 /\ e.a \notin t.immune) \/ e.b >= 500 THEN @ \cup {e.a} ELSE @])
          \* a failed write: the connection is beyond repair
          ELSE IF e.ev = "RespFailed" THEN Ok([t EXCEPT !.mustEnd = @ \cup {e.a}])
          ELSE Ok(t)
@@ -60,6 +63,8 @@ Apply(t, e) ==
     [] e.ev = "StoppedReceived" -> IF t.stoppedSent THEN Ok([t EXCEPT !.stoppedSeen = TRUE]) ELSE No(<<"stop signal received but never sent">>)
     [] e.ev = "StopTimeout" -> No(<<"no stop signal within the deadline after revocation; accept loop at", t.accPc>>)
     [] e.ev = "LateConnectRefused" -> Ok(t)
+    \* a connection was handed a permit that the (completed) revocation did not reach: it would serve requests for ever
+    [] e.ev = "PermitMissedRevocation" -> No(<<"a connection accepted during revocation holds a permit that was never revoked; it is not closed after revocation">>)
     [] e.ev = "LateConnectAccepted" -> No(<<"connection attempt served after the stop signal">>)
     \* ---- accept loop ----
     [] e.ev = "AccWait" -> IF t.accPc = "Top" /\ ~t.accHolds THEN Ok([t EXCEPT !.accPc = "Waiting"]) ELSE No(<<"AccWait at", t.accPc>>)
@@ -74,8 +79,14 @@ Apply(t, e) ==
     [] e.ev = "AccAccepting" -> IF t.accPc = "Check" /\ t.accHolds /\ ~t.tookWhileRevoked THEN Ok([t EXCEPT !.accPc = "Accepting"])
                                 ELSE No(<<"AccAccepting", t.accPc, "token taken after revocation", t.tookWhileRevoked>>)
     [] e.ev = "AccAccepted" -> IF t.accPc = "Accepting" /\ t.accHolds /\ t.backlog > 0 /\ ~t.loopReturned
-                               THEN Ok([t EXCEPT !.backlog = @ - 1, !.accepted = @ \cup {e.a}, !.accHolds = FALSE, !.accPc = "IterEnd"])
+                               THEN Ok([t EXCEPT !.backlog = @ - 1, !.accepted = @ \cup {e.a}, !.accHolds = FALSE, !.accPc = "IterEnd",
+                                                 !.immune = IF SubPermitRace /\ t.revoked = 1 THEN @ \cup {e.a} ELSE @])
                                ELSE No(<<"AccAccepted", t.accPc, t.accHolds, t.backlog, t.loopReturned>>)
+    \* the loop created the connection's permit, then saw that its own permit had been revoked meanwhile: the
+    \* connection is dropped unserved, its token goes back, the loop returns
+    [] e.ev = "AccRevokedAfterAccept" -> IF t.accPc = "IterEnd" /\ e.a \in t.accepted /\ t.revoked >= 1
+                                         THEN Ok([t EXCEPT !.accepted = @ \ {e.a}, !.pendingRet = @ + 1, !.accPc = "Done"])
+                                         ELSE No(<<"AccRevokedAfterAccept", t.accPc, t.revoked>>)
     [] e.ev = "AccAcceptErr" -> IF t.accPc = "Accepting" /\ t.accHolds THEN Ok([t EXCEPT !.accHolds = FALSE, !.pendingRet = @ + 1, !.accPc = "IterEnd"])
                                 ELSE No(<<"AccAcceptErr", t.accPc>>)
     [] e.ev = "AccIterEnd" -> IF t.accPc = "IterEnd" THEN Ok([t EXCEPT !.accPc = "Top"])
@@ -87,7 +98,7 @@ Apply(t, e) ==
     \* ---- tokens and connection tasks ----
     [] e.ev = "TokenReturn" -> IF t.pendingRet > 0 THEN Ok([t EXCEPT !.pendingRet = @ - 1, !.avail = @ + 1]) ELSE No(<<"a token was returned that nobody held">>)
     [] e.ev = "ConnBegin" -> IF e.a \in t.accepted THEN Ok([t EXCEPT !.accepted = @ \ {e.a}, !.live = @ \cup {e.a},
-                                                                  !.mustEnd = IF t.revoked = 2 THEN @ \cup {e.a} ELSE @]) ELSE No(<<"ConnBegin of a connection that was not accepted", e.a>>)
+                                                                  !.mustEnd = IF t.revoked = 2 /\ e.a \notin t.immune THEN @ \cup {e.a} ELSE @]) ELSE No(<<"ConnBegin of a connection that was not accepted", e.a>>)
     [] e.ev = "ReqRead" -> IF e.a \notin t.live THEN No(<<"request read on a connection that is not live", e.a>>)
                            ELSE IF e.a \in t.ended THEN No(<<"request read after the connection ended", e.a>>)
                            ELSE IF e.a \in t.mustEnd THEN No(<<"request read on a connection that had to close (permit revoked at its last check, 5xx sent, or a failed write)", e.a>>)
